@@ -27,6 +27,7 @@ fn weights() -> Weights {
         (3, DeleteVal),
         (5, Update),
         (4, Upsert),
+        (3, PartialUpsert),
         (6, Compact),
         (7, CreateIndex),
         (3, OptimizeIndices),
